@@ -31,7 +31,13 @@ func runC10P(r *simkit.Run, c Cfg) {
 		extra = tp.Bytes(1+tp.Choose(200, "extralen"), "extra")
 		sopts = append(sopts, p2psender.WithExtraData(extra))
 	}
-	snd, err := p2psender.New(pw.send, topicName, sopts...)
+	stopic, scancel, err := gossiptopic.MakeTopic(pw.send, topicName)
+	if err != nil {
+		r.Violate("c10.setup", "MakeTopic: %v", err)
+		return
+	}
+	defer scancel()
+	snd, err := p2psender.New(nil, "", append(sopts, p2psender.WithTopic(stopic))...)
 	if err != nil {
 		r.Violate("c10.setup", "p2psender.New: %v", err)
 		return
@@ -55,9 +61,22 @@ func runC10P(r *simkit.Run, c Cfg) {
 			remote = append(remote, append([]byte(nil), m.Data...))
 		}
 	}()
-	for i := 0; i < 4; i++ {
+	// wait until the sender's router knows the remote subscription (gossipsub
+	// internals are not scheduled; this keeps their start-up out of the check)
+	ready := false
+	for i := 0; i < 20; i++ { // fixed length: the start time of the workload must not depend on gossipsub internals
 		r.Advance(time.Second)
 		r.Quiesce()
+		for _, p := range stopic.ListPeers() {
+			if p == pw.recv.ID() {
+				ready = true
+			}
+		}
+	}
+	if !ready {
+		r.Logf("~cfg", "gossip mesh did not form: run skipped")
+		r.MarkEnd()
+		return
 	}
 	nb := tp.Range(1, 3, "bursts")
 	var sent []message.Message
